@@ -215,6 +215,23 @@ def h_wmap(shape):
             obs.append(("k3:qubit_gets_weight_of_its_trap", IMPLIES(sep, EQ(g1["q%d" % i], W[i]))))
             obs.append(("k3:weight_map_order_independent", IMPLIES(sep, EQ(g1["q%d" % i], g2["q%d" % i]))))
         obs.append(("k3:no_trap_no_weight", AND(EQ(g1["qfar"], 0.0), EQ(g2["qfar"], 0.0))))
+        # the same map defined from a REGISTER, with the weights given in another order than the register's qubits
+        from pulser import Register
+
+        names = ["a", "c", "b", "d"][:n]
+        reg = Register({nm: np.array(list(P[i]), dtype=object) for i, nm in enumerate(names)})
+        order = list(reversed(range(n)))
+        given = {names[i]: W[i] for i in order}
+        try:
+            mreg = reg.define_detuning_map(given)
+            g4 = mreg.get_qubit_weight_map(reg.qubits)
+            obs.append(("k3:register_map_gives_each_qubit_its_weight", IMPLIES(sep, AND(*[EQ(g4[names[i]], W[i]) for i in range(n)]))))
+            part = {names[0]: W[0]} if n > 1 else given
+            g5 = reg.define_detuning_map(part).get_qubit_weight_map(reg.qubits)
+            obs.append(("k3:register_map_partial", IMPLIES(sep, AND(EQ(g5[names[0]], W[0]), *[EQ(g5[names[i]], 0.0) for i in range(1, n)]))))
+        except ValueError:
+            # documented refusal: weights have to be in [0, 1] and sum ... (only when the weights are out of range)
+            obs.append(("k3:register_map_refused_only_for_invalid_weights", False))
         # qubits at the ORIGINAL (unrounded) positions: a register and the map defined from it agree although the map
         # stores its traps rounded to 6 decimals (the difference is below the documented 1e-6 matching tolerance)
         raw = {"q%d" % i: np.array(list(P[i]), dtype=object) for i in range(n if n <= 2 else 2)}
